@@ -337,4 +337,253 @@ theorem splineVal_convexOn_Icc (p : Nat) (hNp : p < N) (hp : 0 < p) (hε : 0 ≤
 
 end inside
 
+/-! ### the linear continuations: the fitted function on the whole real line -/
+section outside
+variable (N : Nat) (ε : ℝ)
+
+theorem deBoorH_continuous (t H : Nat → ℝ) : ∀ q j, Continuous (fun y : ℝ => deBoorH t H q j y) := by
+  intro q
+  induction q with
+  | zero => intro j; exact continuous_const
+  | succ q ih =>
+    intro j
+    exact (((continuous_id.sub continuous_const).div_const _).mul (ih j)).add
+      (((continuous_const.sub continuous_id).div_const _).mul (ih (j+1)))
+
+/-- slopes of the two continuations -/
+noncomputable def slope0 (p : Nat) (c : Nat → ℝ) : ℝ := ∑ j ∈ range N, c j * gradOf N p ε (prev0 N p ε) j
+noncomputable def slope1 (p : Nat) (c : Nat → ℝ) : ℝ := ∑ j ∈ range N, c j * gradOf N p ε (prev1 N p ε) j
+
+theorem splineVal_left (p : Nat) (hp : 0 < p) (c : Nat → ℝ) (z : ℝ) (hz : z ≤ 0) :
+    splineVal N p ε c z = slope0 N ε p c * z + splineVal N p ε c 0 := by
+  rcases lt_or_eq_of_le hz with hz | rfl
+  · have e0 : openRow N p ε (0:ℝ) = row0 N p ε := by
+      rw [openRow_inner N p ε 0 le_rfl zero_le_one]; rfl
+    simp only [splineVal, e0, slope0]
+    unfold openRow; rw [if_pos ⟨hz, hp⟩]
+    rw [sum_mul, ← sum_add_distrib]; apply sum_congr rfl; intro j _; ring
+  · ring
+
+theorem splineVal_right (p : Nat) (hNp : p < N) (hp : 0 < p) (hε : 0 ≤ ε) (c : Nat → ℝ) (z : ℝ)
+    (hz : 1 ≤ z) : splineVal N p ε c z = slope1 N ε p c * (z - 1) + splineVal N p ε c 1 := by
+  rcases lt_or_eq_of_le hz with hz | rfl
+  · have e1 : openRow N p ε (1:ℝ) = row1 N p ε := by
+      rw [openRow_inner N p ε 1 zero_le_one le_rfl, row1_eq_inner N p ε hNp hp hε]
+    have hn : ¬ (z < 0 ∧ 0 < p) := fun h => by linarith [h.1]
+    simp only [splineVal, e1, slope1]
+    unfold openRow; rw [if_neg hn, if_pos ⟨hz, hp⟩]
+    rw [sum_mul, ← sum_add_distrib]; apply sum_congr rfl; intro j _; ring
+  · ring
+
+theorem augKnot_diff (p j k : Nat) (h : j + k < N + p) :
+    augKnot N p ε (j+k) - augKnot N p ε j = (k:ℝ) * (1 / ((N:ℝ) - (p:ℝ))) := by
+  rw [augKnot_eq_zero_of_lt N p ε (j+k) h, augKnot_eq_zero_of_lt N p ε j (by omega),
+    augKnot_zero_uniform, augKnot_zero_uniform]
+  push_cast; ring
+
+/-- with the uniform knots the boundary gradient of function `j` is `(prev_j - prev_{j+1}) / h` -/
+theorem gradOf_eq (p : Nat) (hNp : p < N) (hp : 0 < p) (prev : Nat → ℝ) (hN : prev N = 0) (j : Nat)
+    (hj : j < N) :
+    gradOf N p ε prev j = ((N:ℝ) - (p:ℝ)) * (prev j - prev (j+1)) := by
+  have hpos : (0:ℝ) < (N:ℝ) - (p:ℝ) := by
+    have : (p:ℝ) < (N:ℝ) := by exact_mod_cast hNp
+    linarith
+  have hp' : (p:ℝ) ≠ 0 := by exact_mod_cast hp.ne'
+  simp only [gradOf]
+  rw [augKnot_diff N ε p j p (by omega)]
+  by_cases hl : j + 1 < N
+  · rw [show j + p + 1 = (j+1) + p by omega, augKnot_diff N ε p (j+1) p (by omega)]
+    field_simp
+  · have : j + 1 = N := by omega
+    rw [this, hN]; field_simp; ring
+
+theorem slope_eq_firstDiff (p : Nat) (hNp : p < N) (hp : 0 < p) (c prev : Nat → ℝ)
+    (h0 : prev 0 = 0) (hN : prev N = 0) :
+    ∑ j ∈ range N, c j * gradOf N p ε prev j
+      = ((N:ℝ) - (p:ℝ)) * ∑ j ∈ range N, firstDiff c j * prev j := by
+  rw [← sum_diff_by_parts c prev N (by omega) h0 hN, mul_sum]
+  apply sum_congr rfl; intro j hj
+  rw [gradOf_eq N ε p hNp hp prev hN j (mem_range.mp hj)]; ring
+
+/-- the left continuation is the tangent at `0` -/
+theorem slope0_eq (q : Nat) (hNp : q + 1 < N) (hε : 0 ≤ ε) (c : Nat → ℝ) :
+    slope0 N ε (q+1) c = rightSlope N ε (q+1) c 0 := by
+  unfold slope0 rightSlope
+  rw [slope_eq_firstDiff N ε (q+1) hNp (by omega) c _ (prev0_zero N (q+1) ε hNp (by omega) hε)
+    (prev0_N N (q+1) ε hNp (by omega) hε)]
+  rfl
+
+/-- the right continuation is at least as steep as the function anywhere inside -/
+theorem rightSlope_le_slope1 (q : Nat) (hNp : q + 1 < N) (hε : 0 ≤ ε) (c : Nat → ℝ)
+    (hc : ∀ j, j + 2 < N → c (j+1) - c j ≤ c (j+2) - c (j+1)) (x : ℝ) (h0 : 0 ≤ x) (h1 : x < 1) :
+    rightSlope N ε (q+1) c x ≤ slope1 N ε (q+1) c := by
+  have ht := augKnot_strictMono N (q+1) ε hNp hε
+  have hN1 : augKnot N (q+1) ε N = 1 := augKnot_at_N N (q+1) ε hNp (by omega)
+  have hN1' : augKnot N (q+1) ε (N - 1 + 1) = 1 := by rw [show N - 1 + 1 = N by omega]; exact hN1
+  have hlast : augKnot N (q+1) ε (N-1) < 1 := by rw [← hN1]; exact ht (by omega)
+  -- the polynomial of the last cell
+  set G : ℝ → ℝ := fun y => ((N:ℝ) - ((q+1 : Nat):ℝ))
+    * ∑ j ∈ range N, firstDiff c j * deBoorH (augKnot N (q+1) ε) (indRow (N-1)) q j y with hG
+  have hGc : Continuous G :=
+    continuous_const.mul (continuous_finsetSum _ (fun j _ => continuous_const.mul (deBoorH_continuous _ _ q j)))
+  have hG1 : slope1 N ε (q+1) c = G 1 := by
+    unfold slope1
+    rw [slope_eq_firstDiff N ε (q+1) hNp (by omega) c _ (prev1_zero N (q+1) ε hNp (by omega) hε)
+      (prev1_N N (q+1) ε hNp hε)]
+    simp only [hG, prev1, haarMirror_eq N (q+1) ε hNp hε, Nat.add_sub_cancel]
+  have hGr : ∀ y, augKnot N (q+1) ε (N-1) ≤ y → y < 1 → rightSlope N ε (q+1) c y = G y := by
+    intro y hy1 hy2
+    simp only [hG, rightSlope, Nat.add_sub_cancel]
+    congr 1; apply sum_congr rfl; intro j _
+    rw [bspl_eq_piece _ ht (N-1) q j y hy1 (by rw [hN1']; exact hy2)]
+  rw [hG1]
+  set x' := max x (augKnot N (q+1) ε (N-1)) with hx'
+  have hx'1 : x' < 1 := max_lt h1 hlast
+  have hstep : rightSlope N ε (q+1) c x ≤ G x' := by
+    rw [← hGr x' (le_max_right _ _) hx'1]
+    exact rightSlope_mono N ε q hNp hε c hc x x' h0 (le_max_left _ _) hx'1
+  refine le_trans hstep ?_
+  have htend : Filter.Tendsto G (nhdsWithin 1 (Iio 1)) (nhds (G 1)) :=
+    (hGc.continuousAt.tendsto).mono_left nhdsWithin_le_nhds
+  apply ge_of_tendsto htend
+  filter_upwards [Ioo_mem_nhdsLT hx'1] with y hy
+  have hy0 : augKnot N (q+1) ε (N-1) ≤ y := le_trans (le_max_right _ _) hy.1.le
+  rw [← hGr x' (le_max_right _ _) hx'1, ← hGr y hy0 hy.2]
+  exact rightSlope_mono N ε q hNp hε c hc x' y (le_trans h0 (le_max_left _ _)) hy.1.le hy.2
+
+/-- the right derivative on the whole line -/
+noncomputable def rightSlopeAll (p : Nat) (c : Nat → ℝ) (x : ℝ) : ℝ :=
+  if x < 0 then slope0 N ε p c else if x < 1 then rightSlope N ε p c x else slope1 N ε p c
+
+theorem splineVal_continuous (q : Nat) (hNp : q + 1 < N) (hε : 0 ≤ ε) (c : Nat → ℝ) :
+    ContinuousOn (splineVal N (q+1) ε c) univ := by
+  have hl : ContinuousOn (splineVal N (q+1) ε c) (Iic 0) := by
+    have : ContinuousOn (fun z : ℝ => slope0 N ε (q+1) c * z + splineVal N (q+1) ε c 0) (Iic 0) := by
+      fun_prop
+    exact this.congr (fun z hz => splineVal_left N ε (q+1) (by omega) c z hz)
+  have hr : ContinuousOn (splineVal N (q+1) ε c) (Ici 1) := by
+    have : ContinuousOn (fun z : ℝ => slope1 N ε (q+1) c * (z - 1) + splineVal N (q+1) ε c 1) (Ici 1) := by
+      fun_prop
+    exact this.congr (fun z hz => splineVal_right N ε (q+1) hNp (by omega) hε c z hz)
+  have hm := splineVal_continuousOn N ε q hNp hε c
+  have := (hl.union_of_isClosed hm isClosed_Iic isClosed_Icc).union_of_isClosed hr
+    (isClosed_Iic.union isClosed_Icc) isClosed_Ici
+  refine this.mono ?_
+  intro z _
+  rcases le_total z 0 with h | h
+  · exact Or.inl (Or.inl h)
+  · rcases le_total z 1 with h' | h'
+    · exact Or.inl (Or.inr ⟨h, h'⟩)
+    · exact Or.inr h'
+
+theorem splineVal_hasDerivWithinAt_all (q : Nat) (hNp : q + 1 < N) (hε : 0 ≤ ε) (c : Nat → ℝ) (x : ℝ) :
+    HasDerivWithinAt (splineVal N (q+1) ε c) (rightSlopeAll N ε (q+1) c x) (Ici x) x := by
+  have hlin : ∀ (a b m w : ℝ), HasDerivWithinAt (fun v : ℝ => m * (v - b) + a) m (Ici w) w := by
+    intro a b m w
+    have := (((hasDerivAt_id' w).sub_const b).const_mul m).add_const a
+    exact (this.congr_deriv (by ring)).hasDerivWithinAt
+  unfold rightSlopeAll
+  by_cases hx0 : x < 0
+  · rw [if_pos hx0]
+    have hE : splineVal N (q+1) ε c =ᶠ[nhdsWithin x (Ici x)]
+        fun v => slope0 N ε (q+1) c * (v - 0) + splineVal N (q+1) ε c 0 := by
+      filter_upwards [Ico_mem_nhdsGE hx0] with y hy
+      rw [sub_zero]; exact splineVal_left N ε (q+1) (by omega) c y hy.2.le
+    refine (hlin _ 0 _ x).congr_of_eventuallyEq hE ?_
+    rw [sub_zero]; exact splineVal_left N ε (q+1) (by omega) c x hx0.le
+  · rw [if_neg hx0]
+    by_cases hx1 : x < 1
+    · rw [if_pos hx1]
+      exact splineVal_hasDerivWithinAt N ε q hNp hε c x (not_lt.mp hx0) hx1
+    · rw [if_neg hx1]
+      exact (hlin _ 1 _ x).congr
+        (fun y hy => splineVal_right N ε (q+1) hNp (by omega) hε c y (le_trans (not_lt.mp hx1) hy))
+        (splineVal_right N ε (q+1) hNp (by omega) hε c x (not_lt.mp hx1))
+
+theorem rightSlopeAll_mono (q : Nat) (hNp : q + 1 < N) (hε : 0 ≤ ε) (c : Nat → ℝ)
+    (hc : ∀ j, j + 2 < N → c (j+1) - c j ≤ c (j+2) - c (j+1)) (x y : ℝ) (hxy : x ≤ y) :
+    rightSlopeAll N ε (q+1) c x ≤ rightSlopeAll N ε (q+1) c y := by
+  have h01 : slope0 N ε (q+1) c ≤ slope1 N ε (q+1) c := by
+    rw [slope0_eq N ε q hNp hε c]
+    exact rightSlope_le_slope1 N ε q hNp hε c hc 0 le_rfl zero_lt_one
+  unfold rightSlopeAll
+  by_cases hx0 : x < 0
+  · rw [if_pos hx0]
+    by_cases hy0 : y < 0
+    · rw [if_pos hy0]
+    · rw [if_neg hy0]
+      by_cases hy1 : y < 1
+      · rw [if_pos hy1, slope0_eq N ε q hNp hε c]
+        exact rightSlope_mono N ε q hNp hε c hc 0 y le_rfl (not_lt.mp hy0) hy1
+      · rw [if_neg hy1]; exact h01
+  · have hy0 : ¬ y < 0 := fun h => hx0 (lt_of_le_of_lt hxy h)
+    rw [if_neg hx0, if_neg hy0]
+    by_cases hy1 : y < 1
+    · have hx1 : x < 1 := lt_of_le_of_lt hxy hy1
+      rw [if_pos hx1, if_pos hy1]
+      exact rightSlope_mono N ε q hNp hε c hc x y (not_lt.mp hx0) hxy hy1
+    · rw [if_neg hy1]
+      by_cases hx1 : x < 1
+      · rw [if_pos hx1]
+        exact rightSlope_le_slope1 N ε q hNp hε c hc x (not_lt.mp hx0) hx1
+      · rw [if_neg hx1]
+
+/-- **convex on the whole real line**: order `p ≥ 1`, second differences of the coefficients `≥ 0` ⇒ the fitted
+function with its two linear continuations is convex (the left continuation is the tangent at `0`, the right
+one is at least as steep as any slope inside) -/
+theorem splineVal_convexOn_univ (p : Nat) (hNp : p < N) (hp : 0 < p) (hε : 0 ≤ ε) (c : Nat → ℝ)
+    (hc : ∀ j, j + 2 < N → c (j+1) - c j ≤ c (j+2) - c (j+1)) :
+    ConvexOn ℝ univ (splineVal N p ε c) := by
+  obtain ⟨q, rfl⟩ : ∃ q, p = q + 1 := ⟨p - 1, by omega⟩
+  apply convexOn_of_rightDeriv_mono convex_univ (g := rightSlopeAll N ε (q+1) c)
+    (splineVal_continuous N ε q hNp hε c)
+  · intro x _ z _ _
+    exact splineVal_hasDerivWithinAt_all N ε q hNp hε c x
+  · intro x _ y _ z _ hxy _
+    exact rightSlopeAll_mono N ε q hNp hε c hc x y hxy
+
+end outside
+
+/-! ### the rescaling of `b_spline_basis` is affine -/
+section rescale
+
+theorem scale_pos_real (cfg : BasisCfg ℝ) : 0 < cfg.scale := by
+  have hl : cfg.lo ≤ cfg.hi := by
+    simp only [BasisCfg.lo, BasisCfg.hi]; split <;> [exact le_of_lt ‹_›; exact not_lt.mp ‹_›]
+  simp only [BasisCfg.scale]; split
+  · exact zero_lt_one
+  · rename_i hne; exact lt_of_le_of_ne (by linarith) (Ne.symm hne)
+
+/-- the rescaling `x ↦ (x - lo) / scale` is affine … -/
+theorem rescale_affine (cfg : BasisCfg ℝ) (x y a b : ℝ) (hab : a + b = 1) :
+    cfg.rescale (a * x + b * y) = a * cfg.rescale x + b * cfg.rescale y := by
+  have hb : b = 1 - a := by linarith
+  subst hb; simp only [BasisCfg.rescale]; ring
+
+/-- … and maps the term's domain `[lo, hi]` into the knot range `[0,1]` -/
+theorem rescale_mem_unit (cfg : BasisCfg ℝ) (x : ℝ) (hx : x ∈ Set.Icc cfg.lo cfg.hi) :
+    cfg.rescale x ∈ Set.Icc (0:ℝ) 1 := by
+  have hs := scale_pos_real cfg
+  simp only [BasisCfg.rescale]
+  refine ⟨div_nonneg (by linarith [hx.1]) hs.le, ?_⟩
+  rw [div_le_one hs]
+  simp only [BasisCfg.scale]; split
+  · rename_i h0; linarith [hx.2]
+  · linarith [hx.2]
+
+/-- convexity is kept under the (affine) rescaling -/
+theorem convexOn_comp_rescale (cfg : BasisCfg ℝ) {f : ℝ → ℝ} {S : Set ℝ} (hf : ConvexOn ℝ S f) :
+    ConvexOn ℝ (cfg.rescale ⁻¹' S) (fun x => f (cfg.rescale x)) := by
+  refine ⟨?_, ?_⟩
+  · intro x hx y hy a b ha hb hab
+    simp only [Set.mem_preimage, smul_eq_mul] at hx hy ⊢
+    rw [rescale_affine cfg x y a b hab]
+    exact hf.1 hx hy ha hb hab
+  · intro x hx y hy a b ha hb hab
+    simp only [Set.mem_preimage, smul_eq_mul] at hx hy ⊢
+    rw [rescale_affine cfg x y a b hab]
+    exact hf.2 hx hy ha hb hab
+
+end rescale
+
 end PyGam
